@@ -89,7 +89,15 @@ class Adversary(InstructionGenerator):
             elif k == "ReserveBase":
                 i = ReserveBaseInstruction(v.id, pick(bases, "b_nope", lambda b: sim.bases[b].geoid))
             else:
-                i = ChargeBaseInstruction(v.id, pick(bases, "b_nope", lambda b: sim.bases[b].geoid), self._plug(rng, plugs))
+                def base_or_its_station(b):
+                    # "here" also when the vehicle stands at the station that serves the base (it may be registered elsewhere)
+                    st_ = sim.stations.get(sim.bases[b].station_id) if sim.bases[b].station_id else None
+                    return v.geoid if st_ is not None and st_.geoid == v.geoid else sim.bases[b].geoid
+
+                b_ = pick(bases, "b_nope", base_or_its_station)
+                st_b = sim.stations.get(sim.bases[b_].station_id) if b_ in sim.bases and sim.bases[b_].station_id else None
+                p_ = rng.choice(sorted(st_b.state.keys())) if st_b is not None and rng.random() < 0.6 else self._plug(rng, plugs)
+                i = ChargeBaseInstruction(v.id, b_, p_)
             out.append(i)
         if self.emit:
             from hv.tracer import project_instruction
@@ -831,6 +839,7 @@ def gen_world(rng: random.Random, *, n_steps: int = 40, fleets: Optional[bool] =
         stations.append({"id": f"s{k+1}", "lat": c[0], "lon": c[1],
                          "plugs": [(t, rng.randint(1, 2) if tight else 5, rng.random() < 0.8) for t in types]})
     n_b = rng.randint(1, 2)
+    remote: List[Any] = []          # where the stations stand that serve a base from another location
     for k in range(n_b):
         c = cells[(k + 1) % ncell]
         st = None
@@ -838,6 +847,8 @@ def gen_world(rng: random.Random, *, n_steps: int = 40, fleets: Optional[bool] =
             st = f"bs{k+1}"
             # now and then the station that serves the base is registered at ANOTHER location (nothing forbids it)
             sc = cells[(k + 2) % ncell] if rng.random() < 0.25 else c
+            if sc is not c:
+                remote.append(sc)
             stations.append({"id": st, "lat": sc[0], "lon": sc[1],
                              "plugs": [(rng.choice(["LEVEL_1", "LEVEL_2"]), rng.randint(1, 2), False)]})
         bases.append({"id": f"b{k+1}", "lat": c[0], "lon": c[1], "station": st, "stalls": rng.randint(1, 2) if tight else 5})
@@ -855,6 +866,9 @@ def gen_world(rng: random.Random, *, n_steps: int = 40, fleets: Optional[bool] =
             v["schedule"] = rng.choice(["early", "late"])
             v["home_base"] = rng.choice(bases)["id"]
         vehicles.append(v)
+    for k, sc in enumerate(remote):
+        # somebody is standing at such a station: AT the plugs that serve the base, but not at the base
+        vehicles.append({"id": f"vr{k+1}", "lat": sc[0], "lon": sc[1], "mech": "leaf_50", "soc": rng.choice([0.2, 0.6])})
     requests = []
     n_r = rng.randint(4, 16)
     t_end = dt * n_steps
